@@ -46,3 +46,22 @@ func verifStep(n *node, f *frame, exec bltn, dbg bool) {
 	}
 	h.fn(s)
 }
+
+var verifGoHookPtr atomic.Pointer[func(*Interpreter, int)]
+
+// VerifSetGoStart installs (or, with nil, removes) the monitor of goroutines started by a go
+// statement on a function value. It is called in the new goroutine with stage 0 when the goroutine
+// begins, 1 when it is about to call the function, 2 when the function has returned.
+func VerifSetGoStart(fn func(*Interpreter, int)) {
+	if fn == nil {
+		verifGoHookPtr.Store(nil)
+		return
+	}
+	verifGoHookPtr.Store(&fn)
+}
+
+func verifGoStart(i *Interpreter, stage int) {
+	if h := verifGoHookPtr.Load(); h != nil {
+		(*h)(i, stage)
+	}
+}
